@@ -123,6 +123,8 @@ fixed = [
     'integer data to float64: for int64 epoch nanoseconds a value one count below the lower bound was accepted (float64 spacing 256 at 1.7e18)',
     'fixed: property=C03 3031a78 (second regression of b3f5969, pointed out by a batch-7 sub-agent) valid_range_test forced datetime bounds to datetime64[ns]: for datetime64[s] data '
     'a bound beyond 2262 (2500-01-01) wrapped around and every value was flagged FAIL',
+    'fixed: property=C20 7623a82 QcConfigCreator.__daily_cubic_interp appended day 366 to a time axis that already held day 1 and day 366 (daily values of a leap '
+    'year): scipy rejected the repeated knot, the ValueError was read as "no data in the bounding box" and the box was widened to the whole globe',
     'fixed: property=C06 90cacb3 collect_results_list scattered data / tinp / zinp / lat / lon only into the collected result of the last test of a '
     'ContextResult; the other tests of the same ContextResult kept fully masked arrays',
     'fixed: property=C20 6c6e291 QcConfigCreator._get_subset widened the bounding box whenever the values inside it summed to zero (np.nansum(subset) == 0 as the '
